@@ -947,6 +947,10 @@ class Interp:
             return Obj("enumerate", self.expr(args[0], st))
         if name == "reversed":
             return Obj("reversed", self.expr(args[0], st))
+        if name == "getattr" and len(args) in (2, 3):
+            base, nm = self.expr(args[0], st), self.expr(args[1], st)
+            if isinstance(nm, Str) and "<" not in nm.s:
+                return self.attr(st, base, nm.s, node)
         if name == "zip" and len(args) == 2:
             return Obj("zip", (self.expr(args[0], st), self.expr(args[1], st)))
         if name in ("list", "tuple"):
